@@ -81,6 +81,28 @@ Theorem verdicts_agree_when_exact_names :
 Proof. exact agree_when_exact. Qed.
 Print Assumptions verdicts_agree_when_exact_names.
 
+(** 3b. The resolution-time check as repaired by hooks/fix-c11-semver-targets.patch (model
+        [resolve_target_sv]: the same semver-aware lookups as the stand-alone check): it never panics, it
+        is the conformance under the SEMVER discipline with the diagnostics in scan order, and then the
+        two verdicts agree on EVERY well-formed pair.  (./check selects the model variant that matches the
+        source tree it is run against.) *)
+Theorem resolve_target_sv_spec :
+  forall K (promote : K -> K) (sub : K -> K -> bool) (w : tworld K) (c : comp K), wf_pair w c ->
+    exists v, resolve_target_sv promote sub w c = Some v /\
+      (v = ROk <-> Conforms promote sub Semver w c) /\
+      (forall n, v = RErr (ImportNotInTarget n) <-> diag_import_not_in_target promote sub Semver w c n) /\
+      (forall n, v = RErr (TargetMismatch EImport n) <-> diag_import_mismatch promote sub Semver w c n) /\
+      (forall n, v = RErr (MissingTargetExport n) <-> diag_missing_export promote sub Semver w c n) /\
+      (forall n, v = RErr (TargetMismatch EExport n) <-> diag_export_mismatch promote sub Semver w c n).
+Proof. exact resolve_sv_spec. Qed.
+Print Assumptions resolve_target_sv_spec.
+
+Theorem verdicts_agree_after_repair :
+  forall K (promote : K -> K) (sub : K -> K -> bool) (w : tworld K) (c : comp K), wf_pair w c ->
+    exists v, resolve_target_sv promote sub w c = Some v /\ agree v (standalone_target promote sub w c).
+Proof. exact agree_sv. Qed.
+Print Assumptions verdicts_agree_after_repair.
+
 (** 4. Component-model subtyping.  Full statement of the property: for resource-free worlds the verdict
        coincides with the reference validator's subtyping between the output's component type and the
        world's.  Proved here: for ANY oracle deciding the declarative component-model relation [SubCM]
@@ -119,6 +141,7 @@ Example targets_nonvacuous :
   standalone_ok (fun k => k) N.eqb w_demo c_demo = true /\
   conforms_b (fun k => k) N.eqb Semver w_demo c_demo = true /\
   resolve_target (fun k => k) N.eqb w_demo c_demo = RErr (ImportNotInTarget n_xyz_021) /\
+  resolve_target_sv (fun k => k) N.eqb w_demo c_demo = Some ROk /\
   exact_names_b w_demo c_demo = false /\
   (* exact names: both checks agree *)
   exact_names_b w_demo c_demo_bad = true /\
